@@ -120,7 +120,7 @@ func runStream(c SCase, fault *rpcsim.PipeFault) (*sOutcome, error) {
 	}
 	world := rpcsim.NewWorld()
 	_, boot := world.NewObject()
-	conn := rpc.NewConn(tr, &rpc.Options{BootstrapClient: boot, AbortTimeout: 50 * time.Millisecond})
+	conn := rpc.NewConn(tr, &rpc.Options{BootstrapClient: boot, AbortTimeout: 5 * time.Second})
 	out := &sOutcome{}
 	guard := func(what string, f func()) error {
 		done := make(chan struct{})
@@ -310,7 +310,7 @@ func runStream(c SCase, fault *rpcsim.PipeFault) (*sOutcome, error) {
 			return out, pbt.Fail("stream/fault-free-incomplete", "without any fault the bytes written do not form whole frames: %s", where)
 		}
 	}
-	st := conn.VerifState()
+	st := quietState(conn)
 	if !st.MuFree {
 		return out, pbt.Fail("lock-held/conn-mutex", "Conn.mu is still locked after Close returned (fault %+v)", fault)
 	}
